@@ -166,8 +166,8 @@ ApplyBin(s, op, a, b) ==
          (CASE op = "+" -> NumResult(s, NumAdd(a, b))
             [] op = "-" -> NumResult(s, NumSub(a, b))
             [] op = "*" -> IF MulNegZero(a, b) THEN Unspec(s) ELSE NumResult(s, NumMul(a, b))
-            [] op = "/" -> LET r == NumDiv(a, b) IN IF r.ok THEN NumResult(s, r.v) ELSE Unspec(s)
-            [] op = "%" -> LET r == NumMod(a, b) IN IF r.ok THEN NumResult(s, r.v) ELSE Unspec(s)
+            [] op = "/" -> LET r == NumDiv(a, b) IN IF r.ok THEN NumResult([s EXCEPT !.dz = s.dz \/ IsZero(b)], r.v) ELSE Unspec(s)
+            [] op = "%" -> LET r == NumMod(a, b) IN IF r.ok THEN NumResult([s EXCEPT !.dz = s.dz \/ IsZero(b)], r.v) ELSE Unspec(s)
             [] op = "==" -> RetPop(s, VBool(NumEq(a, b)))
             [] op = "!=" -> RetPop(s, VBool(~NumEq(a, b)))
             [] op = "<" -> RetPop(s, VBool(NumLt(a, b)))
@@ -705,7 +705,7 @@ InitState == [status |-> "run", ph |-> "main",
               k |-> <<>>, env |-> << [n \in {"err", "errmsg"} |-> IF n = "err" THEN VBool(FALSE) ELSE VStr(<<>>)] >>,
               tenv |-> << [n \in {"err", "errmsg"} |-> IF n = "err" THEN T_bool ELSE T_str] >>,
               heap |-> <<>>, out |-> <<>>, stop |-> FALSE, inq |-> <<>>, evi |-> 0, evb |-> <<>>,
-              tt |-> 0, tf |-> 0, xc |-> 0, rn |-> 0, ns |-> 0, yl |-> FALSE, oas |-> 0]
+              tt |-> 0, tf |-> 0, xc |-> 0, rn |-> 0, ns |-> 0, yl |-> FALSE, oas |-> 0, dz |-> FALSE]
 
 \* families define  FamInit == InitWith(<their case set>)
 InitWith(CaseSet) == /\ cs \in CaseSet
@@ -786,6 +786,11 @@ EventExpect(s) ==
       result |-> IF ~HasHandler(TheCase.events[i].ev) THEN <<"nohandler">>
                  ELSE IF i < s.evi \/ s.status = "idle" THEN <<"ok">> ELSE ResultOf(s)]]
 
+GlobalNames(s) == (DOMAIN s.env[1]) \ {"err", "errmsg"}
+GlobalsOf(s) == [n \in GlobalNames(s) |->
+                   IF ValPrintable(s.env[1][n], s.heap) THEN [ok |-> TRUE, cp |-> ValCps(s.env[1][n], s.heap, FALSE)]
+                   ELSE [ok |-> FALSE, cp |-> <<>>]]
+
 CaseJson(s) ==
   [fam |-> TheCase.fam, class |-> TheCase.class, tag |-> TheCase.tag,
    srcs |-> [ly \in Lys |-> RProg(TheProg, ly)],
@@ -793,6 +798,8 @@ CaseJson(s) ==
    events |-> [i \in 1..s.evi |-> [name |-> TheCase.events[i].ev, args |-> TheCase.events[i].args]],
    failFast |-> TheCase.failFast, noTestSummary |-> TheCase.noSummary,
    stopped |-> s.stop, steps |-> s.ns, cut |-> FALSE,
+   \* final globals (print form) and whether a division or modulo by zero was evaluated (C16)
+   globals |-> GlobalsOf(s), divz |-> s.dz,
    \* soundOnly: the documentation leaves the rest of this behaviour open; only "never goes wrong"
    \* (and the effects so far being a prefix) can be demanded of the implementation
    soundOnly |-> s.status = "unspec",
